@@ -509,6 +509,8 @@ def loop_entry(key, it, inv):
 def havoc(key, name, current):
     lc = _lc(key)
     ty = lc.get("types", {}).get(name)
+    if callable(ty):
+        return ty(f"{name}@{key}")
     if ty is None:
         if current is UNBOUND:
             return Poison(name)
